@@ -428,12 +428,16 @@ fn any_builder_state() -> LongNameBuilder {
     kani::assume(k <= MAX_LONG_DIR_ENTRIES);
     let index: u8 = kani::any();
     kani::assume((index as usize) <= k);
-    LongNameBuilder { buf: LfnBuffer { ucs2_units: kani::any(), len: k * LFN_PART_LEN }, chksum: kani::any(), index }
+    // (the buffer is built through its own API, so that the harness does not depend on the representation of `len`)
+    let mut buf = LfnBuffer { ucs2_units: kani::any(), ..LfnBuffer::new() };
+    buf.set_len(k * LFN_PART_LEN);
+    kani::assume(buf.len() == k * LFN_PART_LEN);
+    LongNameBuilder { buf, chksum: kani::any(), index }
 }
 #[cfg(all(feature = "lfn", not(feature = "alloc")))]
 fn builder_inv(b: &LongNameBuilder) -> bool {
-    b.buf.len % LFN_PART_LEN == 0 && b.buf.len <= LONG_NAME_BUFFER_LEN && (b.index as usize) * LFN_PART_LEN <= b.buf.len
-        && (b.index != 0 || b.buf.len == 0)          // nothing pending <=> empty buffer (clear() / new())
+    b.buf.len() % LFN_PART_LEN == 0 && b.buf.len() <= LONG_NAME_BUFFER_LEN && (b.index as usize) * LFN_PART_LEN <= b.buf.len()
+        && (b.index != 0 || b.buf.len() == 0)          // nothing pending <=> empty buffer (clear() / new())
 }
 
 /// C17 (inductive step, fixed-buffer build): from ANY builder state satisfying the invariant, processing ANY slot
@@ -599,6 +603,39 @@ fn lnb_twenty_slots() {
     core::mem::forget(out);
 }
 
+/// C17/C15/C19 (both long-name builds): a complete, well-formed 20-slot run carrying a 255-unit name (orders 0x54,19..1;
+/// the first slot on disk holds 8 units, the terminator and padding) decodes to exactly those 255 units when the
+/// checksum matches the short name, and to nothing otherwise. This is the longest legal name: 20 slots are accepted.
+#[cfg(feature = "lfn")]
+#[kani::proof]
+#[kani::unwind(264)]
+fn lnb_twenty_slots_exact() {
+    let mut b = LongNameBuilder::new();
+    let chk: u8 = kani::any();
+    let mut first: [u16; 13] = kani::any();
+    first[7] = 0x5A; first[8] = 0; first[9] = 0xFFFF; first[10] = 0xFFFF; first[11] = 0xFFFF; first[12] = 0xFFFF;
+    let part: [u16; 13] = kani::any();
+    feed(&mut b, 0x54, chk, &first);
+    let mut i = 19u8;
+    while i >= 1 {
+        feed(&mut b, i, chk, &part);
+        i -= 1;
+    }
+    let sfn: [u8; SFN_SIZE] = kani::any();
+    b.validate_chksum(&sfn);
+    let out = b.into_buf();
+    if spec::lfn_checksum(&sfn) == chk {
+        assert!(out.len() == 255);
+        assert!(out.as_ucs2_units()[0] == part[0] && out.as_ucs2_units()[246] == part[12]);
+        assert!(out.as_ucs2_units()[247] == first[0] && out.as_ucs2_units()[254] == 0x5A);
+    } else {
+        assert!(out.len() == 0);
+    }
+    kani::cover!(spec::lfn_checksum(&sfn) == chk);
+    kani::cover!(spec::lfn_checksum(&sfn) != chk);
+    core::mem::forget(out);
+}
+
 /// C19 (alloc build): the Vec-backed LfnBuffer honours the same contract as the fixed array: set_len keeps the
 /// prefix, zero-fills growth, len()/as_ucs2_units() agree, clear() empties.
 #[cfg(all(feature = "lfn", feature = "alloc"))]
@@ -642,4 +679,44 @@ fn twin_lnb_always_yields_name() {
     let out = b.into_buf();
     assert!(out.len() > 0);
     core::mem::forget(out);
+}
+
+/// Dir-level step harnesses (separate file).
+pub(crate) mod ops { include!(concat!(env!("FATFS_VERIF_HARNESS"), "/dirops.rs")); }
+
+/// C16/C19: `copy_short_name_part` against a reference written on BYTES (independent of `chars()` and of any case
+/// table): spaces and dots are dropped, the listed ASCII characters are copied with ASCII letters upper-cased, every
+/// other character - in particular EVERY non-ASCII character, whatever its Unicode upper case is - becomes one '_'.
+/// Same reference in the build with and without the unicode feature, so the alias bytes cannot depend on it.
+#[kani::proof]
+#[kani::unwind(7)]
+fn copy_short_name_part_spec() {
+    let b: [u8; 5] = kani::any();
+    let len: usize = kani::any();
+    kani::assume(len <= 5);
+    let src = match core::str::from_utf8(&b[..len]) { Ok(s) => s, Err(_) => { kani::assume(false); return; } };
+    let mut dst = [b' '; 3];
+    let (n, fits, lossy) = ShortNameGenerator::copy_short_name_part(&mut dst, src);
+    // reference
+    let mut exp = [b' '; 3];
+    let mut en = 0usize;
+    let mut efits = true;
+    let mut elossy = false;
+    let mut i = 0;
+    while i < len {
+        let c = b[i];
+        let clen = if c < 0x80 { 1 } else if c < 0xE0 { 2 } else if c < 0xF0 { 3 } else { 4 };
+        if en == 3 { efits = false; break; }
+        if c == b' ' || c == b'.' { elossy = true; i += clen; continue; }
+        let ok = c < 0x80 && (c.is_ascii_alphanumeric() || matches!(c, b'!' | b'#' | b'$' | b'%' | b'&' | b'\'' | b'(' | b')' | b'-' | b'@' | b'^' | b'_' | b'`' | b'{' | b'}' | b'~'));
+        if ok { exp[en] = if c >= b'a' && c <= b'z' { c - 32 } else { c }; } else { exp[en] = b'_'; elossy = true; }
+        en += 1;
+        i += clen;
+    }
+    assert!(n == en && fits == efits);
+    assert!(dst[0] == exp[0] && dst[1] == exp[1] && dst[2] == exp[2]);
+    if efits { assert!(lossy == elossy); }
+    kani::cover!(len == 2 && b[0] == 0xC3 && b[1] == 0x9F && dst[0] == b'_' && n == 1);  // sharp s -> '_' (one character)
+    kani::cover!(!fits);
+    kani::cover!(fits && !lossy && n == 3);
 }
